@@ -213,7 +213,7 @@ pub fn ctors(q: &Seq, full: bool) -> Vec<Cons> {
             add("CommonJsStringBuilder(JsStr::utf16).build", cb.build());
             let mut cb = CommonJsStringBuilder::new();
             cb.push(JsString::from(u));
-            cb.push(u8::try_from(0x41).map(|_| JsStr::latin1(&[])).unwrap());
+            cb.push(JsStr::latin1(&[]));
             add("CommonJsStringBuilder(JsString,empty).build", cb.build());
             let mut cb = CommonJsStringBuilder::new();
             cb.push(&u[..n / 2]);
@@ -259,11 +259,11 @@ pub fn ctors(q: &Seq, full: bool) -> Vec<Cons> {
             let mut sp = vec![0x20u8, 0x0A];
             sp.extend_from_slice(b);
             sp.push(0x09);
-            if n > 0 && !crate::model::is_ws(u[0]) && !crate::model::is_ws(u[n - 1]) {
+            if n > 0 && !crate::model::is_ws_raw(u[0]) && !crate::model::is_ws_raw(u[n - 1]) {
                 add("trim(latin1 ws+u+ws)", JsString::from(JsStr::latin1(&sp)).trim());
             }
         }
-        if n > 0 && !crate::model::is_ws(u[0]) && !crate::model::is_ws(u[n - 1]) {
+        if n > 0 && !crate::model::is_ws_raw(u[0]) && !crate::model::is_ws_raw(u[n - 1]) {
             let mut sp = vec![0xFEFFu16, 0x20];
             sp.extend_from_slice(u);
             sp.push(0x2029);
